@@ -40,7 +40,7 @@ SPEC = {
     ],
     "assumptions": ["SHA-1 / CollapseHash modelled as injective on pre-images", "tests are deterministic functions of their runtime inputs",
                     "scratch filesystem supports user xattrs (plz falls back to files otherwise)"],
-    "harness_timeout": 2400,
+    "harness_timeout": 9000,
 }
 MUTATIONS = """
 Dry-runs on scratch copies (VERIF_REPO=/var/tmp/mC11x ./check C11 quick), all compile with and without -tags verif:
